@@ -128,6 +128,8 @@ OPS = {
     "rho-one-row": [M("eam", lambda s: setv(s, "Tabulation", "nrho", "1")), M("fs", lambda s: setv(s, "Tabulation", "nrho", "1")),
                     M("eam", lambda s: (delk(s, "Tabulation", "nrho"), setv(s, "Tabulation", "drho", "4.5")))],
     "dlpoly-four-rows": [M("dlpoly", lambda s: setv(s, "Tabulation", "nr", "4"))],
+    # the row count that applies when the file gives none (1001) is no multiple of four either
+    "dlpoly-default-rows": [M("dlpoly", lambda s: delk(s, "Tabulation", "nr")), M("dlpoly", lambda s: (delk(s, "Tabulation", "nr"), delk(s, "Tabulation", "cutoff")))],
     "dlpoly-not-multiple-of-four": [M("dlpoly", lambda s: setv(s, "Tabulation", "nr", "10")), M("dlpoly", lambda s: setv(s, "Tabulation", "nr", "7"))],
     "cutoff-nan": [M("pair", lambda s: setv(s, "Tabulation", "cutoff", "nan")), M("eam", lambda s: setv(s, "Tabulation", "cutoff_rho", "nan"))],
     "cutoff-inf": [M("pair", lambda s: setv(s, "Tabulation", "cutoff", "inf")), M("eam", lambda s: setv(s, "Tabulation", "cutoff_rho", "inf"))],
@@ -319,6 +321,21 @@ def main(prop, tier, seed):
                     if got[0] != "ok":
                         run.violation(dict(engine="validate", clause="valid-refused", op="forms-reversed", route=route),
                                       "[valid-refused] %s model whose [Potential-Form] entries are listed caller first: %s %s" % (fam, got[0], got[1]), dict(ini=render(secs)))
+            # under-specified EAM models are valid: an embedding entry without any density entry, a density entry without an
+            # embedding entry, an empty [Pair] section (the manual: missing functions are zero)
+            for fam in ("eam", "fs"):
+                for what, edit in (("embedding species in no density key", lambda s: [sec(s, "EAM-Density")[1].remove(kv) for kv in list(sec(s, "EAM-Density")[1]) if "Fe" in kv[0]]),
+                                   ("density species without embedding entry", lambda s: delk(s, "EAM-Embed", "Cu")),
+                                   ("no density entries at all", lambda s: sec(s, "EAM-Density")[1].clear()),
+                                   ("empty [Pair] section", lambda s: sec(s, "Pair")[1].clear())):
+                    secs = base(fam)
+                    edit(secs)
+                    for route, got in (("api", run_api(render(secs))), ("cli", run_cli_file(render(secs), d))):
+                        run.evaluations += 1
+                        run.replayed += 1
+                        if got[0] != "ok":
+                            run.violation(dict(engine="validate", clause="valid-refused", op="under-specified:" + what, route=route),
+                                          "[valid-refused] %s model with %s: %s %s" % (fam, what, got[0], got[1]), dict(ini=render(secs)))
             # ---- the models the repository ships (manual examples, quick start, tests' resources) are well-formed: each must be
             # accepted as it stands, through the command line and the Python API
             import glob
